@@ -718,13 +718,20 @@ func c14ImportText(name string, quoted bool) string {
 }
 
 // source text of a body; loc == "" for the main script
-func c14Render(loc string, body []c14Stmt) string {
+func c14Render(loc string, body []c14Stmt) string { return c14RenderT(loc, body, nil) }
+
+// the same with a call of the host builtin turn() in front of the statements listed in turnBefore
+// (the session stream: the evaluation hands control to the scheduler there)
+func c14RenderT(loc string, body []c14Stmt, turnBefore map[int]bool) string {
 	var b strings.Builder
 	if loc != "" {
 		b.WriteString("tick(" + strconv.Quote(loc) + ")\n")
 	}
 	declared := map[string]bool{}
-	for _, s := range body {
+	for si, s := range body {
+		if turnBefore[si] {
+			b.WriteString("turn()\n")
+		}
 		switch s.Kind {
 		case "imp":
 			b.WriteString("import " + c14ImportText(s.Name, s.Quoted))
@@ -778,13 +785,16 @@ func c14Render(loc string, body []c14Stmt) string {
 		for _, v := range c14Vars {
 			if declared[v] {
 				b.WriteString(fmt.Sprintf("func set_%s(v) { %s = v }\n", v, v))
+				b.WriteString(fmt.Sprintf("func get_%s() { return %s }\n", v, v))
 			}
 		}
 		if declared[c14Counter] {
 			b.WriteString(fmt.Sprintf("func add_%s(v) { %s = %s + v }\n", c14Counter, c14Counter, c14Counter))
+			b.WriteString(fmt.Sprintf("func get_%s() { return %s }\n", c14Counter, c14Counter))
 		}
 		if declared[c14List] {
 			b.WriteString(fmt.Sprintf("func push_%s(v) { %s.append(v) }\n", c14List, c14List))
+			b.WriteString(fmt.Sprintf("func get_%s() { return %s }\n", c14List, c14List))
 		}
 	}
 	b.WriteString("end_marker := 0\n")
@@ -2395,6 +2405,13 @@ func c14_runC14(e *Env) {
 		"of two path texts of one file (pairs differing only in the form: sampled in quick), the same pairs split between the script and a hub module (transitive), and seeded mixes of 3-6 imports " +
 		"over 1-3 files partly inside hub modules, the module counter bumped through every alias; judged by FILE (one body execution per file, every alias of a file sees the same counter); " +
 		"distinct by the full text of script and hub modules, all non-trivial; probes are non-trivial when accepted"
+	e.R.Rule += "; stream session: 1-3 evaluations (own script, own VM, own tick/turn builtins) over ONE importer instance and one module tree — 55% plain trees (1-3 modules with own variables, " +
+		"counter and list, optionally all importing a helper), else the random trees of the graph stream — scripts in the style of a plugin (import/from-import 1-4 modules under aliases, stores, counter bumps, " +
+		"list appends through the aliases between and after the imports, re-imports; one try-/spawned/missing import or a failure in some) or the random scripts of the graph stream; a schedule over the " +
+		"top-level statements of the scripts: sequential (15%), nested (30%: each evaluation runs the next one to its end in the middle of its own script), else seeded interleaving with 65% stickiness; " +
+		"every evaluation runs in its own goroutine and returns control at generated turn() calls, so the real interleaving is the scheduled one; each session runs with the FSImporter, every third also " +
+		"with the LocalImporter; directed sessions: the plugin-builtin scenario, two alternating handlers, sequential with the first VM kept alive, three evaluations with a shared helper, a failing import; " +
+		"distinct by the full text of scripts, schedule and modules, non-trivial when some module is imported by at least two evaluations"
 	if only := os.Getenv("VERIF_C14_ONLY"); only != "" { // development aid: run a single stream
 		e.R.Note("VERIF_C14_ONLY=%s: only that stream was run", only)
 		switch only {
@@ -2404,10 +2421,13 @@ func c14_runC14(e *Env) {
 			c14Graph(e)
 		case "spellmix":
 			c14SpellMix(e)
+		case "session":
+			c14Sessions(e)
 		}
 		return
 	}
 	c14Spell1(e)
 	c14Graph(e)
 	c14SpellMix(e)
+	c14Sessions(e)
 }
